@@ -62,7 +62,17 @@ def check(ctx):
         # structure (local names free): f, *r = items ; p = cls(..., points=f, ...) ; return p.<m>(*r)
         okc = False
         rv = [n.value for n in own_nodes(fc.node) if isinstance(n, ast.Return)]
+        # canonical reading (single-use temporaries inlined): return cls(name=name, points=f, mesh=mesh).<m>(*r) with f, *r = items
         if len(rv) == 1 and isinstance(rv[0], ast.Call) and isinstance(rv[0].func, ast.Attribute) and rv[0].func.attr == m \
+                and isinstance(rv[0].func.value, ast.Call) and norm(rv[0].func.value.func) == "cls" and len(rv[0].args) == 1 \
+                and isinstance(rv[0].args[0], ast.Starred) and isinstance(rv[0].args[0].value, ast.Name) and not rv[0].keywords:
+            rn = rv[0].args[0].value.id
+            un = [n for n in own_nodes(fc.node) if isinstance(n, ast.Assign) and isinstance(n.targets[0], ast.Tuple) and len(n.targets[0].elts) == 2
+                  and isinstance(n.targets[0].elts[1], ast.Starred) and norm(n.targets[0].elts[1].value) == rn and norm(n.value) == "items"]
+            if len(un) == 1:
+                kwp = {k.arg: norm(k.value) for k in rv[0].func.value.keywords}
+                okc = kwp.get("points") == norm(un[0].targets[0].elts[0]) and kwp.get("name") == "name" and kwp.get("mesh") == "mesh"
+        elif len(rv) == 1 and isinstance(rv[0], ast.Call) and isinstance(rv[0].func, ast.Attribute) and rv[0].func.attr == m \
                 and isinstance(rv[0].func.value, ast.Name) and len(rv[0].args) == 1 and isinstance(rv[0].args[0], ast.Starred) \
                 and isinstance(rv[0].args[0].value, ast.Name) and not rv[0].keywords:
             pn, rn = rv[0].func.value.id, rv[0].args[0].value.id
